@@ -67,7 +67,7 @@ pub fn run_one(
                 adm_share,
                 mempool: Vec::new(),
             };
-            if profile.name == "ADM" && ctx.rng.chance(1, 5) {
+            if profile.name == "ADM" && ctx.rng.chance(1, 3) {
                 crate::actors_adm::drill_kill_bank(&mut sim, &mut ctx);
             }
             for _ in 0..steps {
